@@ -147,6 +147,12 @@ static int run_standalone(const char *path) {
             fprintf(stderr, "  %s\n", vm.error_msg);
         }
         exit_code = 1;
+    } else {
+        /* Same rule as nano_virt --run and the native wrapper: an int result of main is the exit status */
+        NanoValue main_result = vm_get_result(&vm);
+        if (main_result.tag == TAG_INT) {
+            exit_code = (int)main_result.as.i64;
+        }
     }
 
     /* Stop co-process if it was launched */
